@@ -10,12 +10,13 @@ SPEC = dict(
                "left without a result. Half of the requests carry platform restrictions as the CLI hands them over (aliases, padded and blank names); "
                "an entry then counts as eligible when it declares no platforms or when the engine's own lexical path returns it under the same "
                "filters. A tenth of the databases have 513-4103 entries; the first, middle and last three entries of every database carry a unique "
-               "word of rare letters whose misspelling only that entry can answer.",
+               "word of rare letters whose misspelling only that entry can answer; so do pairs of entries with the same command and description declared "
+               "for different platforms (only one of the two is eligible for a request). Thresholds include MaxInt64, MaxInt64-50/-99, MaxInt32, 2^40.",
     level_note="Valid UTF-8 without NUL only (hostile bytes are C10's). Eligibility under a platform restriction is witnessed by the lexical path, not decided by a reference predicate.",
     engines=[dict(name="fuzzy", shards=T(16, 16), timeout=T(900, 3600))],
     rule="case = (database - as loaded, after a same-size replacement through UpdateDatabase, after direct growth -, query, threshold, NLP, limit); non-trivial = the lexical answer is empty and the fallback answered; distinct by "
          "(db, query, threshold, NLP, limit).",
-    floors=T({"marker-queries": 500, "large-databases": 10, "lexical-answer-exists": 2000, "fallback-answered": 1500, "fallback-with-threshold": 300, "fallback-empty": 300, "fallback-answered-after:same-size-replacement": 150, "fallback-answered-after:append": 150, "distinct_nontrivial": 1500},
-             {"marker-queries": 10000, "large-databases": 300, "lexical-answer-exists": 20000, "fallback-answered": 15000, "fallback-with-threshold": 3000, "fallback-empty": 3000, "fallback-answered-after:same-size-replacement": 1500, "fallback-answered-after:append": 1500, "distinct_nontrivial": 15000}),
+    floors=T({"databases-with-same-text-pairs-of-different-eligibility": 15, "marker-queries": 500, "large-databases": 10, "lexical-answer-exists": 2000, "fallback-answered": 1500, "fallback-with-threshold": 300, "fallback-empty": 300, "fallback-answered-after:same-size-replacement": 150, "fallback-answered-after:append": 150, "distinct_nontrivial": 1500},
+             {"databases-with-same-text-pairs-of-different-eligibility": 700, "marker-queries": 10000, "large-databases": 300, "lexical-answer-exists": 20000, "fallback-answered": 15000, "fallback-with-threshold": 3000, "fallback-empty": 3000, "fallback-answered-after:same-size-replacement": 1500, "fallback-answered-after:append": 1500, "distinct_nontrivial": 15000}),
     assumptions=["match quality = the score github.com/sahilm/fuzzy assigns to command + ' ' + description of that single entry"],
 )
